@@ -161,7 +161,7 @@ func newBatcher(cfg batchConfig) *batcher {
 		cfg.Workers = 8
 	}
 	if cfg.Timeout == 0 {
-		cfg.Timeout = 60 * time.Second
+		cfg.Timeout = 300 * time.Second // backstop only: loops are cut by model-derived caps
 	}
 	if cfg.GoPrelude == "" {
 		cfg.GoPrelude = cfg.Prelude
